@@ -259,6 +259,13 @@ def _c16_files(tier, rnd):
     # F6: one-byte events equal to the delimiter and to '/', ANALYSIS offsets in HEADER and TEXT
     fs.append(layout('FCS3.0', 'header', 'I', '4,3,2,1', [8], [256], 'last', [[47], [47], [47], [92]], delim='\\',
                      extra=[['SAMPLE ID', 'one byte events']], analysis=[['G', '1']], analysis_in='both'))
+    # F7/F8: mixed integer widths (generic decoder) with TEXT before DATA and DATA as the last segment: a cut inside DATA leaves
+    # HEADER and TEXT intact, so only the data segment reader can notice it (seeded change C16-4: a short read of the byte
+    # matrix reshaped to fewer rows and broadcast over $TOT events)
+    fs.append(layout('FCS3.0', 'header', 'I', '1,2,3,4', [16, 32, 16], [65536, 1 << 32, 1024], 'last',
+                     [[1, 70000, 3], [65535, 4000000000, 1023], [258, 1, 515]], extra=[['$CYT', 'verif']]))
+    fs.append(layout('FCS3.1', 'text', 'I', '4,3,2,1', [8, 24], [256, 1 << 24], 'onepast',
+                     [[7, 70000], [255, 1], [0, 16777215], [9, 65536]], labels=['first', 'second'], pad_text=2))
     if tier == 'quick':
         return fs
     fs.append(layout('FCS3.0', 'header', 'D', '2,1', [64], None, 'onepast', [[1.5], [-2.0], [3.25]], trailer=' '))
